@@ -881,6 +881,15 @@ class Gen(object):
             er = eng.rules.ents[ent]
             keys = [k for k in eng.rules.unique_keys(ent)[1:] if all(er.attrs[n].kind == 'scalar' for n in k)]
             sc = [n for n, a in er.attrs.items() if a.kind == 'scalar' and not a.lazy]
+            refs = [n for n, a in er.attrs.items() if a.kind == 'ref' and not a.is_pk]
+            if refs and r.random() < 0.25:
+                # get / exists / select by a reference value; the related object is often new in this session
+                n = r.choice(refs)
+                c = self.live(er.attrs[n].target)
+                if c:
+                    new = [x for x in c if x in eng.unflushed]
+                    t = r.choice(new) if new and r.random() < 0.6 else r.choice(c)
+                    return {'op': 'bykey', 'ent': ent, 'key': {n: {'ref': t}}, 'how': r.choice(['get', 'exists', 'select', 'count'])}
             if keys and r.random() < 0.7: key = r.choice(keys)
             elif sc: key = (r.choice(sc),)
             else: return None
